@@ -34,7 +34,28 @@ Recv(i) ==
 Fault == Scn.fault
 \* the undecodable answer: fixed octets, or (cut > 0) the genuine answer without its last `cut` octets - an incomplete encoding whose
 \* beginning is right (a decoder that reads past the end of what was received, into whatever its buffer still holds, accepts it)
-Garbage(bytes) == IF "cut" \in DOMAIN Fault /\ Fault.cut > 0 /\ Len(bytes) > Fault.cut THEN SubSeq(bytes, 1, Len(bytes) - Fault.cut) ELSE Fault.bytes
+\* ... or (ie = k > 0) the genuine answer with the value of its k-th information element replaced by octets that are no value of the
+\* IE's type, every length around it consistent (a transfer syntax error inside an intact frame, TS 38.413 10.2), optionally with that
+\* IE's criticality set to "ignore" - which is a statement about IEs that are not comprehended, not about octets that cannot be decoded
+RECURSIVE SetEnum(_, _)
+SetEnum(t, val) == CASE t.k = "enum" -> [t EXCEPT !.v = val] [] t.k = "seq" -> [t EXCEPT !.fields[1].v = SetEnum(@, val)] [] OTHER -> t
+RECURSIVE EnumAt(_, _, _)
+EnumAt(t, p, val) ==
+   IF Len(p) = 0 THEN SetEnum(t, val)
+   ELSE CASE t.k \in {"open", "choice"} -> [t EXCEPT !.v = EnumAt(t.v, Tail(p), val)]
+          [] t.k = "seq" -> [t EXCEPT !.fields[Head(p)].v = EnumAt(t.fields[Head(p)].v, Tail(p), val)]
+          [] t.k = "seqof" -> [t EXCEPT !.v[Head(p)] = EnumAt(t.v[Head(p)], Tail(p), val)]
+IeGarbage(bytes) ==
+   LET d == NgapDecode(bytes) IN
+   IF ~d.ok THEN Fault.bytes
+   ELSE LET ps == OpenPaths(d.v, <<>>) IN
+        IF Len(ps) < 2 THEN Fault.bytes
+        ELSE LET ies == SelectSeq(ps, LAMBDA p : Len(p) = Len(ps[2]))       \* the message body first, then the IE values in document order
+                 p == ies[((Fault.ie - 1) % Len(ies)) + 1]
+                 t1 == SetRawAt(d.v, p, Fault.bytes)
+                 t2 == IF "ignore" \in DOMAIN Fault /\ Fault.ignore THEN EnumAt(t1, SubSeq(p, 1, Len(p) - 1) \o <<2>>, 1) ELSE t1
+             IN PerEncode(t2)
+Garbage(bytes) == IF "ie" \in DOMAIN Fault /\ Fault.ie > 0 THEN IeGarbage(bytes) ELSE IF "cut" \in DOMAIN Fault /\ Fault.cut > 0 /\ Len(bytes) > Fault.cut THEN SubSeq(bytes, 1, Len(bytes) - Fault.cut) ELSE Fault.bytes
 SendOne(i, bytes) ==
    IF ~Online THEN TRUE
    ELSE IF Fault.kind = "close" /\ i >= Fault.at
@@ -128,7 +149,7 @@ FinalNormal ==
    \cup {"session report " \o ToString(i) \o " is not the UE address / TEID / UPF address the network assigned: " \o ToString(EstReports[i])
            : i \in {x \in 1..Min2i(Len(EstReports), Len(Scn.ues)) : ~ReportOk(x)}}
 FinalFault ==
-   (IF Fault.kind = "garbage" /\ ~("cut" \in DOMAIN Fault /\ Fault.cut > 0) /\ NgapDecode(Fault.bytes).ok THEN {"HARNESS: the garbage is a decodable NGAP PDU for the specification"} ELSE {})
+   (IF Fault.kind = "garbage" /\ ~("cut" \in DOMAIN Fault /\ Fault.cut > 0) /\ ~("ie" \in DOMAIN Fault /\ Fault.ie > 0) /\ NgapDecode(Fault.bytes).ok THEN {"HARNESS: the garbage is a decodable NGAP PDU for the specification"} ELSE {})
    \cup (IF j > Fault.at THEN {} ELSE {"HARNESS: the run ended before the fault point was reached"})
    \cup (IF "pre" \in DOMAIN Fault /\ (Fault.pre >= Fault.at \/ NgapDecode(Fault.prebytes).ok) THEN {"HARNESS: the earlier undecodable message is misplaced or decodable"} ELSE {})
    \cup (IF result.kind = "exit" THEN {} ELSE {"the emulator hangs after the fault (no exit within the deadline)"})
